@@ -479,7 +479,7 @@ def run(ctx):
         explore(ctx, h, drv, "main", 24, 30, 1, 60)
         explore(ctx, h, drv, "long", 6, 100, 9, 30)
         writer_tie(ctx, drv, "main", 24, 120)
-    if ctx.proof_broken or ctx.corr_broken:
+    if (ctx.proof_broken or ctx.corr_broken) and not ctx.violations:
         ctx.log("obligation or correspondence broken: widening the search for a failing input")
         explore(ctx, h, None, "search", 12, 30, 1, 20)
 
